@@ -301,3 +301,24 @@ func (s *stats) merge(evals, nontrivial int64, verdicts map[string]int64) {
 	}
 	s.mu.Unlock()
 }
+
+// sample keeps the 12 sample slots of the evidence file spread over the
+// sub-checks (two for the large Write enumeration, one for each other).
+var (
+	sampleMu    sync.Mutex
+	sampleCount = map[string]int{}
+)
+
+func sample(r *ev.Run, sub string, x any) {
+	max := 1
+	if sub == "bs-write-seq" {
+		max = 2
+	}
+	sampleMu.Lock()
+	defer sampleMu.Unlock()
+	if sampleCount[sub] >= max {
+		return
+	}
+	sampleCount[sub]++
+	r.Sample(x)
+}
